@@ -12,3 +12,15 @@ pub use self::raw::Input;
 pub use self::raw::Player;
 pub use self::raw::PlayerChange;
 pub use self::raw::Pos;
+
+/// The incremental reader, for external runtime monitors that need to choose
+/// the size of every read. Off by default.
+#[cfg(feature = "verif")]
+pub mod verif {
+    pub use crate::raw::Buffer;
+    pub use crate::raw::Callback;
+    pub use crate::raw::Error;
+    pub use crate::raw::Item;
+    pub use crate::raw::Reader;
+    pub use crate::raw::WrapCallbackError;
+}
